@@ -83,6 +83,11 @@ pub trait RangeNumber: FromStr + PartialOrd + Copy + MaybeToTokens {
     fn from_u64(v: u64) -> Option<Self>;
     fn from_i64(v: i64) -> Option<Self>;
     fn from_f64(v: f64) -> Option<Self>;
+
+    /// `false` for values that can't be used in a range (NaN and infinities).
+    fn is_valid(self) -> bool {
+        true
+    }
 }
 
 // pub trait RangeInteger: RangeNumber {}
@@ -171,10 +176,13 @@ impl<T: RangeNumber> Range<T> {
 
     pub fn new(s: &str) -> Result<Self> {
         let parse = |s: &str| {
-            s.parse::<T>().map_err(|_| Error::RangeParse {
-                range: s.to_string(),
-                range_type: T::TYPE,
-            })
+            s.parse::<T>()
+                .ok()
+                .filter(|v| v.is_valid())
+                .ok_or_else(|| Error::RangeParse {
+                    range: s.to_string(),
+                    range_type: T::TYPE,
+                })
         };
         let s = s.trim();
         if matches!(s, "_" | "..") {
@@ -1139,15 +1147,19 @@ mod range_number_impl {
                     }
 
                     fn from_i64(v: i64) -> Option<Self> {
-                        Some(v as $num_type)
+                        Some(v as $num_type).filter(|v| v.is_valid())
                     }
 
                     fn from_u64(v: u64) -> Option<Self> {
-                        Some(v as $num_type)
+                        Some(v as $num_type).filter(|v| v.is_valid())
                     }
 
                     fn from_f64(v: f64) -> Option<Self> {
-                        Some(v as $num_type)
+                        Some(v as $num_type).filter(|v| v.is_valid())
+                    }
+
+                    fn is_valid(self) -> bool {
+                        self.is_finite()
                     }
                 }
 
